@@ -273,8 +273,10 @@ type cgOp struct {
 	MaxNum  bool       `json:"max_num,omitempty"` // unlimited memory values are handed over as MaxInt64 instead of "max"
 	Shuffle uint64     `json:"shuffle,omitempty"`
 	Pattern string     `json:"pattern,omitempty"`
-	Node    int        `json:"node,omitempty"` // create / remove
-	Val     []string   `json:"val,omitempty"`  // create: [index in cfg.Res] canonical value the runtime puts into the new cgroup (cut down to the parent's value on disk when it exceeds it)
+	Node    int        `json:"node,omitempty"`  // create / remove
+	Nodes   []int      `json:"nodes,omitempty"` // update: a plain cacheable Update / UpdateBatch (the non-leveled entry points other plugins use) of Res[0] of these cgroups to Val[i]
+	Batch   bool       `json:"batch,omitempty"` // update: one UpdateBatch(true, ...) instead of one Update(true, .) per cgroup
+	Val     []string   `json:"val,omitempty"`   // create: [index in cfg.Res] canonical value the runtime puts into the new cgroup (cut down to the parent's value on disk when it exceeds it)
 }
 
 func cgFaulty(mode string) bool { return strings.HasPrefix(mode, "fault") }
@@ -609,6 +611,25 @@ func (cgEngine) Generate(p *sim.Plan, g *sim.Rng) {
 	var ops []cgOp
 	fresh := make([]bool, n) // created since the last rewrite
 	for k := 0; k < nops; k++ {
+		if churn && g.Bool([]float64{0.3, 0.5}[min(k, 1)]) {
+			// another plugin of the agent sets single files through the plain cacheable entry points of the same executor, also
+			// for cgroups that do not exist yet (it works from the pod list as well); the value is the agent's current wish
+			name := cfg.Res[g.Intn(len(cfg.Res))]
+			d := cgDef(name)
+			uop := cgOp{K: "update", Res: []string{name}, Batch: g.Bool(0.5)}
+			for i := 1; i < n; i++ {
+				if (!present[i] && !gone[i] && g.Bool(0.6)) || (present[i] && g.Bool(0.15)) {
+					uop.Nodes = append(uop.Nodes, i)
+					uop.Val = append(uop.Val, cgPlanString(d.isSet, cur[name][i]))
+					if present[i] {
+						disk[name][i] = cur[name][i]
+					}
+				}
+			}
+			if len(uop.Nodes) > 0 {
+				ops = append(ops, uop)
+			}
+		}
 		if churn && k > 0 {
 			// between two rewrites the runtime creates cgroups (parents first) and, rarely, removes some
 			for i := 1; i < n; i++ {
@@ -1483,6 +1504,9 @@ func (cgEngine) Execute(r *sim.Run) {
 		case "remove":
 			h.removeOp(oi, op)
 			continue
+		case "update":
+			h.plainOp(exec, oi, op)
+			continue
 		}
 		if op.K != "rewrite" {
 			r.OpSkipped()
@@ -1581,6 +1605,97 @@ func (h *cgH) createOp(oi int, op *cgOp) {
 	r.Probe("op:create")
 	r.Event("create n%d%s", n, sb.String())
 	r.Sample("op%d create n%d(p%d)%s", oi, n, h.cfg.Parents[n], sb.String())
+}
+
+// plainOp: a plain cacheable Update / UpdateBatch on the long-lived executor (the entry points the non-leveled plugins use)
+// for single files, cgroups that do not exist included. An existing cgroup is only named when writing the value keeps the
+// tree valid as it is on disk (a single-file update has no way to order itself against relatives). Fault-free; the full
+// statement applies: the rule after the write, the existing files hold the value afterwards, unchanged files are not written.
+func (h *cgH) plainOp(exec *ResourceUpdateExecutorImpl, oi int, op *cgOp) {
+	r := h.r
+	ri := -1
+	for i, d := range h.defs {
+		if len(op.Res) == 1 && d.name == op.Res[0] {
+			ri = i
+		}
+	}
+	if ri < 0 || len(op.Nodes) == 0 || len(op.Nodes) != len(op.Val) {
+		r.OpSkipped()
+		return
+	}
+	d := h.defs[ri]
+	onBad := "hierarchy-invalid"
+	if h.cfg.Mode != "crash" {
+		onBad = "kernel-rejected"
+	}
+	s := &cgSub{name: fmt.Sprintf("op%d/plain", oi), strict: true, onBad: onBad, target: map[int]cgVal{}}
+	var us []ResourceUpdater
+	seen := map[int]bool{}
+	for i, n := range op.Nodes {
+		if n <= 0 || n >= len(h.cfg.Parents) || seen[n] {
+			continue
+		}
+		seen[n] = true
+		v, ok := cgParsePlan(d.isSet, op.Val[i])
+		if !ok {
+			continue
+		}
+		fi := h.fi(n, ri)
+		if h.present[n] {
+			if c, _ := h.conflict(fi, v); c != "" {
+				r.Probe("plain:node-dropped-not-valid-alone")
+				continue
+			}
+		}
+		var str string
+		switch {
+		case d.isSet:
+			str = cgSetString(v, false)
+		case v == cgInf && d.name == "cfs":
+			str = "-1"
+		case v == cgInf:
+			str = "max"
+		default:
+			str = strconv.FormatInt(int64(v), 10)
+		}
+		u, err := DefaultCgroupUpdaterFactory.New(d.typ, h.dirs[n], str, nil)
+		if err != nil {
+			r.HarnessFail("updater factory: %v", err)
+		}
+		us = append(us, &cgW{ResourceUpdater: u, h: h, fi: fi})
+		s.target[fi] = v
+		if !h.present[n] {
+			h.wished[fi] = cgWish{v, time.Now()}
+			r.Probe("plain:absent-cgroup-addressed")
+		} else {
+			r.Probe("plain:existing-cgroup-addressed")
+		}
+	}
+	if len(us) == 0 {
+		r.OpSkipped()
+		return
+	}
+	r.OpDone()
+	r.Probe("op:update")
+	s.start = append([]cgVal(nil), h.val...)
+	h.sub = s
+	r.Event("%s begin batch=%v n=%d", s.name, op.Batch, len(us))
+	if op.Batch {
+		exec.UpdateBatch(true, us...)
+	} else {
+		for _, u := range us {
+			if _, err := exec.Update(true, u); err != nil {
+				r.Fail("plain-update-failed", d.name, "%s: Update(%s) of a fault-free cgroupfs returned %v", s.name, u.Key(), err)
+			}
+		}
+	}
+	h.sub = nil
+	if late := h.scan(); len(late) > 0 {
+		r.Fail("stray-write", h.defOf(late[0]).name, "%s: %s was written although no call for it was in progress", s.name, h.fname(late[0]))
+	}
+	h.checkReached(s, "plain")
+	r.Event("%s end writes=%d", s.name, len(s.writes))
+	r.Sample("op%d plain update %s nodes=%v val=%v batch=%v: %d calls, %d writes", oi, d.name, op.Nodes, op.Val, op.Batch, s.calls, len(s.writes))
 }
 
 // removeOp: the cgroup of op.Node and everything below it goes away between two rewrites (pod deleted, container exited).
